@@ -69,6 +69,9 @@ class Report:
                 if signature not in self.known_hits:
                     self.known_hits[signature] = k
                 return False
+        if len(self.violations) >= 25:
+            self.violations.append((signature, None))
+            return True
         os.makedirs(os.path.join(EVID, "replay"), exist_ok=True)
         path = os.path.join(EVID, "replay", "%s-%d.json" % (self.prop, len(self.violations)))
         with open(path, "w") as f:
